@@ -49,6 +49,10 @@ ASSUMPTIONS = [
     "for a key only if it names that key and goes to the endpoint (and symbol) that issued it; keep-alive gaps are measured "
     "per key, from the SUBSCRIBE frame until the connection goes down, the key expires or the run ends; tolerance one poll "
     "period (+ the scripted HTTP slowness)",
+    "a client may give a connection up only after the server closed / dropped it, asked for a reconnection, sent a malformed, "
+    "unknown or error message on it, or after a scripted HTTP failure during its lifetime; channel messages, acks, listen-key "
+    "expiry, registrations, slow replies and the passing of time are no reason (after listenKeyExpired, with no HTTP failure "
+    "pending, the SAME connection must carry the new SUBSCRIBE within 0.24 s)",
     "whether the listenKeyExpired notice itself is forwarded to the user-data event source is left open by the statement: "
     "both are accepted",
 ]
@@ -69,6 +73,10 @@ ISSUER = {"spot": ("/api/v3/userDataStream", None), "cross": ("/sapi/v1/userData
           "isolated": ("/sapi/v1/userDataStream/isolated", "BTCUSDT")}
 USER_STREAMS = {"binance": {"user": "spot"}, "binance-cross": {"user": "cross"}, "binance-isolated": {"user": "isolated"},
                 "binance-two": {"user": "spot", "user2": "cross"}}
+
+# server behaviours after which giving the connection up (and reconnecting) is a legitimate reaction of a client
+MAY_END_CONNECTION = {"close", "drop", "garbage", "binary", "reconnect_req", "unknown_channel", "unknown_stream", "unknown_event",
+                      "sub_error", "bts_error", "sub_failed"}
 
 ACTIONS = {
     "generic": ["tick", "msg_a", "msg_b", "unknown_channel", "garbage", "binary", "reconnect_req", "resub_a", "close", "drop",
@@ -287,10 +295,14 @@ def run_case(fam, actions):
         order = {"id": 1, "order_type": 1, "microtimestamp": "1577836800000000", "amount_str": "0.5", "amount_at_create": "1.5",
                  "price_str": "3", "amount": 0.5, "price": 3}
 
+        causes = []  # (connection index, action): server behaviours after which a client may give a connection up
+
         async def driver():
             await asyncio.sleep(2 * STEP)
             for a in actions:
                 ws = env.live()
+                if ws is not None and a in MAY_END_CONNECTION:
+                    causes.append((ws.idx, a))
                 if a == "tick":
                     pass
                 elif a == "fail_connect":
@@ -339,11 +351,14 @@ def run_case(fam, actions):
                         continue
                     elif a == "resub_a":
                         interesting[0] = True
-                        n_before, idx = len(ws.sent), ws.idx
+                        n_before, idx, n_causes = len(ws.sent), ws.idx, len(causes)
                         ws.deliver("text", json.dumps({"resub": "a"}))
                         await asyncio.sleep(4 * STEP)  # longer than any scripted slowness, also one already in flight
                         w2 = env.live()
-                        if w2 is not None and w2.idx == idx and not any("a" in m.get("subscribe", []) for _, m in ws.sent[n_before:]):
+                        if (w2 is None or w2.idx != idx) and not (env.fail_next_connect or n_causes != len(causes)):
+                            problems.append(("no-resubscription-on-live-connection", f"after the re-subscription flag connection "
+                                             f"#{idx} did not survive although the server did not close it"))
+                        elif w2 is not None and w2.idx == idx and not any("a" in m.get("subscribe", []) for _, m in ws.sent[n_before:]):
                             problems.append(("no-resubscription-on-live-connection", "channel flagged for re-subscription was not "
                                              "re-subscribed on the live connection"))
                         continue
@@ -370,7 +385,15 @@ def run_case(fam, actions):
                             sent_msgs[uname + "-maybe"] += 1
                             await asyncio.sleep(4 * STEP)
                             w2 = env.live()
-                            if w2 is not None and w2.idx == idx and not failing:
+                            if not failing and (w2 is None or w2.idx != idx):
+                                # nothing was scripted between the notice and now: the connection the notice arrived on
+                                # must still be the live one
+                                problems.append(("no-resubscription-on-live-connection", f"stream {uname!r}: after listenKeyExpired "
+                                                 f"connection #{idx} did not survive (closed at {ws.t_closed}, live now: "
+                                                 f"{'none' if w2 is None else '#%d' % w2.idx}) although the server did not close it; "
+                                                 f"SUBSCRIBE frames on it after the notice: "
+                                                 f"{[m.get('params') for _, m in ws.sent[n_before:] if m.get('method') == 'SUBSCRIBE']}"))
+                            elif w2 is not None and w2.idx == idx and not failing:
                                 new = set()
                                 for _, m in ws.sent[n_before:]:
                                     if m.get("method") == "SUBSCRIBE":
@@ -463,6 +486,17 @@ def run_case(fam, actions):
             hi = lo + sent_msgs[name + "-maybe"]
             if not lo <= got[name] <= hi:
                 problems.append(("routing", f"source {name!r} produced {got[name]} events for {lo}..{hi} messages of its channel"))
+        # the client does not give up a connection on its own: every connection that went down before the end of the run was
+        # closed / dropped by the server, or received a behaviour after which reconnecting is a legitimate reaction (reconnect
+        # request, malformed / unknown / error message), or a scripted HTTP failure (listen key, token) fell into its lifetime
+        end_t = getattr(env, "end_time", None)
+        for ws in env.conns:
+            if ws.t_closed is None or (end_t is not None and ws.t_closed >= end_t):
+                continue
+            if any(i == ws.idx for i, _ in causes) or any(ws.t_open <= t <= ws.t_closed for t in env.http_fail_times):
+                continue
+            problems.append(("connection-given-up", f"connection #{ws.idx} (opened {ws.t_open:.3f}) went down at {ws.t_closed:.3f} "
+                             f"although the environment did nothing to it that calls for a reconnection"))
         # back-off
         for a, b in zip(env.connect_times, env.connect_times[1:]):
             if b - a < BACKOFF - 1e-9:
